@@ -40,15 +40,19 @@ Keys    == {<<U_ab, "exact">>, <<U_a, "prefix">>, <<U_adot, "wildcard">>, <<U_ba
 
 O0 == [ack |-> FALSE, xme |-> "", xl |-> <<>>, el |-> <<>>, hx |-> FALSE, he |-> FALSE,
        xa |-> <<>>, ea |-> <<>>, dme |-> FALSE, match |-> "", invoke |-> "", dcl |-> FALSE,
-       fwd |-> FALSE, tmo |-> 0, rprog |-> FALSE, mode |-> "", prog |-> FALSE, err |-> ""]
+       fwd |-> FALSE, tmo |-> 0, rprog |-> FALSE, mode |-> "", prog |-> FALSE, err |-> "", ppt |-> ""]
 F0 == [limit |-> 0, reverse |-> FALSE, from_t |-> 0, after_t |-> 0, before_t |-> 0, until_t |-> 0,
        from_p |-> 0, after_p |-> 0, before_p |-> 0, until_p |-> 0, topic |-> <<>>]
 In0 == [op |-> "", s |-> "", req |-> 0, uri |-> <<>>, id |-> 0, o |-> O0, uri2 |-> <<>>, args |-> <<>>,
         how |-> "", tag |-> "", f |-> F0]
 U_wampdot == <<"w","a","m","p",".">>
 
+\* ("ppt" \in MCKinds: payload passthru mode - s1 announced it for every role, s2 as a callee only)
 FeatOf(s) == IF s = "s1" THEN <<"callee:call_canceling", "callee:progressive_call_results", "subscriber:publisher_identification">>
-             ELSE IF s = "s2" THEN <<"callee:call_timeout">> ELSE <<>>
+                              \o (IF "ppt" \in MCKinds THEN <<"publisher:payload_passthru_mode", "caller:payload_passthru_mode", "callee:payload_passthru_mode">> ELSE <<>>)
+             ELSE IF s = "s2" THEN <<"callee:call_timeout">> \o (IF "ppt" \in MCKinds THEN <<"callee:payload_passthru_mode">> ELSE <<>>)
+             ELSE <<>>
+PptSet == IF "ppt" \in MCKinds THEN {"", "mqtt"} ELSE {""}
 JoinOf(s) == [authid |-> IF s = "s3" THEN "alice" ELSE "u1", color |-> IF s = "s1" THEN "red" ELSE "",
               feats |-> FeatOf(s), local |-> s # "s3", q |-> 0, tr |-> ""]
 
@@ -135,6 +139,7 @@ PubOptSet == {O0, [O0 EXCEPT !.ack = TRUE], [O0 EXCEPT !.xme = "f"], [O0 EXCEPT 
              \cup {[O0 EXCEPT !.he = TRUE, !.el = <<sess[s].id>>, !.xme = "f"] : s \in DOMAIN sess}
              \cup {[O0 EXCEPT !.ea = <<[a |-> "color", v |-> <<"red">>]>>], [O0 EXCEPT !.xa = <<[a |-> "authrole", v |-> <<"trusted">>]>>]}
              \cup (IF "disc" \in MCKinds THEN {[O0 EXCEPT !.dme = TRUE, !.xme = "f"], [O0 EXCEPT !.dme = TRUE, !.ack = TRUE]} ELSE {})
+             \cup (IF "ppt" \in MCKinds THEN {[O0 EXCEPT !.ppt = "mqtt", !.xme = "f"], [O0 EXCEPT !.ppt = "mqtt", !.ack = TRUE]} ELSE {})
 
 MCNext ==
   /\ steps < MaxSteps
@@ -161,8 +166,8 @@ MCNext ==
         /\ \E s \in J, id \in used.reg \cup {99} :
              Do([In0 EXCEPT !.op = "unregister", !.s = s, !.req = N, !.id = id], UnregisterFx(Cur, s, N, id))
      \/ /\ "call" \in MCKinds
-        /\ \E s \in J, u \in Targets, tmo \in {0, 2}, rp \in BOOLEAN, dme \in (IF "disc" \in MCKinds THEN BOOLEAN ELSE {FALSE}) :
-             LET o == [O0 EXCEPT !.tmo = tmo, !.rprog = rp, !.dme = dme]
+        /\ \E s \in J, u \in Targets, tmo \in {0, 2}, rp \in BOOLEAN, dme \in (IF "disc" \in MCKinds THEN BOOLEAN ELSE {FALSE}), ppt \in PptSet :
+             LET o == [O0 EXCEPT !.tmo = tmo, !.rprog = rp, !.dme = dme, !.ppt = ppt]
                  i == [In0 EXCEPT !.op = "call", !.s = s, !.req = N, !.uri = u, !.o = o] IN
              IF BestRegs(Cur, u) = {} THEN Do(i, CallFx(Cur, s, N, u, o, "p", <<>>, "", 0))
              ELSE \E k \in BestRegs(Cur, u) : \E callee \in Eligible(regs[k]) :
@@ -172,9 +177,9 @@ MCNext ==
              Do([In0 EXCEPT !.op = "cancel", !.s = s, !.req = c[2], !.o = [O0 EXCEPT !.mode = mode]],
                 CancelFx(Cur, s, c[2], mode))
      \/ /\ "yield" \in MCKinds
-        /\ \E s \in J : \E inv \in used.inv[s] \cup {99}, prog \in BOOLEAN :
-             Do([In0 EXCEPT !.op = "yield", !.s = s, !.id = inv, !.o = [O0 EXCEPT !.prog = prog]],
-                YieldFx(Cur, s, inv, prog, "r"))
+        /\ \E s \in J : \E inv \in used.inv[s] \cup {99}, prog \in BOOLEAN, ppt \in PptSet :
+             Do([In0 EXCEPT !.op = "yield", !.s = s, !.id = inv, !.o = [O0 EXCEPT !.prog = prog, !.ppt = ppt]],
+                YieldFx(Cur, s, inv, prog, ppt, "r"))
      \/ /\ "inverr" \in MCKinds
         /\ \E s \in J : \E inv \in used.inv[s] :
              Do([In0 EXCEPT !.op = "inverror", !.s = s, !.id = inv], InvErrorFx(Cur, s, inv, "app.error", "e"))
